@@ -401,6 +401,9 @@ func (e *SEnv) evalID(sx *SX) Val {
 				if vr, ok := obj.(*types.Var); ok {
 					if e.entryParams && x.fn.isParam(vr) {
 						if v, ok := x.entry.vars[vr]; ok {
+							if ord, ok := x.localOrd[vr]; ok {
+								x.usedLocals[name] = ord
+							}
 							return v
 						}
 					}
